@@ -468,6 +468,9 @@ structure CallDef where
   idx : Idx := .next
   /-- status code demanded by an `assert/response` postprocessor, 0 = none: a call answered otherwise ends the shot -/
   assert : Nat := 0
+  /-- the call's `tag` option: any text, possibly empty, possibly shared by several calls; it names the SAMPLE
+  (`<scenario>.<tag>`) and nothing else — templates are cached under the call's NAME (round 6, seed C20-r6-1) -/
+  tag : String := ""
   deriving Repr
 
 structure ScenDef where
@@ -592,14 +595,14 @@ def shootStep (v : Variant) (c : Cfg) (gun : Nat) (scn : String) (cd : CallDef) 
   let vars : Vars Char := mkVars ui.1 (svFor cd sv) c.g c.gn
   -- a template that cannot be parsed / executed: `templ.Apply` returns an error after the preprocessor ran; the step
   -- reports a sample with code 0, makes no call and ends the shot; nothing was written (the map is a clone)
-  if callBad cd then .failed { w with iters := iters } { calls := [], samples := [sampleText (scn ++ ".t" ++ cd.name) 0] } else
+  if callBad cd then .failed { w with iters := iters } { calls := [], samples := [sampleText (scn ++ "." ++ cd.tag) 0] } else
   -- templater: payload (pure), metadata (shared map + per-gun cache)
   let payload := cd.payload.map fun (fname, kind, t) => (fname, pvalOf kind (String.ofList (render vars t)))
   let cells := (assocGet w.cells cd.name).getD []
   let ckey := (gun, scn, cd.name)
   let (cells', cache', sent) := applyMetadata v cells ((assocGet w.caches ckey).getD []) vars
   let w' : World := { cells := assocSet w.cells cd.name cells', iters := iters, caches := assocSet w.caches ckey cache' }
-  let tag := scn ++ ".t" ++ cd.name
+  let tag := scn ++ "." ++ cd.tag
   match lookupMethod cd.call with
   | none => .failed w' { calls := [], samples := [sampleText tag 0] }
   | some (m, fs) =>
